@@ -603,11 +603,11 @@ def run_wrong_cert(params, known):
         keys.append(label)
         if world.escaped:
             err = world.escaped[-1]
-            v = Violation(PROP, 'integrity', 'exception-escaped-idle-callback', dict(exc=err[0], cert=label), '%s: %s' % (err[0], err[2])).as_dict()
+            v = Violation(params.get('prop', PROP), 'integrity', 'exception-escaped-idle-callback', dict(exc=err[0], cert=label), '%s: %s' % (err[0], err[2])).as_dict()
         elif not ok and variant is None:
-            v = Violation(PROP, 'integrity', 'unmodified-bundle-rejected', dict(cert=label), 'reasons %r, errors %r' % (reasons, world.api_errors[:1])).as_dict()
+            v = Violation(params.get('prop', PROP), 'integrity', 'unmodified-bundle-rejected', dict(cert=label), 'reasons %r, errors %r' % (reasons, world.api_errors[:1])).as_dict()
         elif not ok:
-            v = Violation(PROP, 'integrity', 'signature-by-unbound-key-verified', dict(cert=label),
+            v = Violation(params.get('prop', PROP), 'integrity', 'signature-by-unbound-key-verified', dict(cert=label),
                           'BIB with security source %s signed under a certificate "%s" was verified and the bundle delivered' % (SRC, label)).as_dict()
         else:
             continue
